@@ -47,8 +47,11 @@ type c13Set struct {
 }
 
 func c13MkSet(i int) c13Set {
-	_, n4, _ := net.ParseCIDR(fmt.Sprintf("10.%d.0.0/16", i))
-	_, n6, _ := net.ParseCIDR(fmt.Sprintf("fd00:%x::/64", i))
+	_, n4, e4 := net.ParseCIDR(fmt.Sprintf("10.%d.%d.0/24", i/250, i%250)) // thousands of distinct sets in the thorough tier
+	_, n6, e6 := net.ParseCIDR(fmt.Sprintf("fd00:%x::/64", i))
+	if e4 != nil || e6 != nil {
+		panic(fmt.Sprint("harness: cannot build subnet set ", i, ": ", e4, e6))
+	}
 	return c13Set{fmt.Sprintf("S%d", i), n4, n6}
 }
 
@@ -379,16 +382,45 @@ func TestVerifC13Sighup(t *testing.T) {
 		return began, lastServed, false
 	}
 
+	// waitReload waits for a reload to begin after a SIGHUP; it gives up early, with a reason, when the goroutine that
+	// main() started for signals no longer exists ("gone") or when the whole signal path has been idle on 80
+	// consecutive scans, 2 s ("idle": the signal was ignored)
+	waitReload := func() (*os.File, string) {
+		idleRuns, goneRuns := 0, 0
+		for deadline := time.Now().Add(60 * time.Second); time.Now().Before(deadline); time.Sleep(25 * time.Millisecond) {
+			if w := h.tryServe(); w != nil {
+				return w, ""
+			}
+			idle, found, _ := c13SignalPathIdle()
+			switch {
+			case !found:
+				idleRuns = 0
+				if goneRuns++; goneRuns >= 40 {
+					return nil, "gone"
+				}
+			case idle:
+				goneRuns = 0
+				if idleRuns++; idleRuns >= 80 {
+					return nil, "idle"
+				}
+			default:
+				idleRuns, goneRuns = 0, 0
+			}
+		}
+		return nil, "timeout"
+	}
 	type scen struct {
 		before, during int
 		rollout        bool // the reload also rolls out a new ClientConf generation
+		bad            bool // the subnet file is unparseable at the moment of this reload (it must change nothing)
 	}
-	base := []scen{{1, 0, false}, {1, 1, false}, {1, 0, true}, {1, 2, false}, {1, 3, false}, {2, 1, true}, {2, 1, false}, {3, 2, false}, {2, 0, false}, {1, 1, true}}
+	base := []scen{{1, 0, false, false}, {1, 1, false, false}, {1, 0, false, true}, {1, 0, true, false}, {1, 2, false, false}, {1, 3, false, false}, {1, 0, false, true}, {2, 1, true, false}, {2, 1, false, false},
+		{3, 2, false, false}, {2, 0, false, false}, {1, 1, true, false}}
 	reps := kit.Tier(2, 25)
 	lost := 0
 	for r := 0; r < reps && lost < 2; r++ {
 		for _, sc := range base {
-			label := fmt.Sprintf("sighups-before-reload=%d sighups-during-reload=%d rollout=%v", sc.before, sc.during, sc.rollout)
+			label := fmt.Sprintf("sighups-before-reload=%d sighups-during-reload=%d rollout=%v unparseable=%v", sc.before, sc.during, sc.rollout, sc.bad)
 			rec.CaseCheap(label)
 			h.mu.Lock()
 			oldGen := h.gens[len(h.gens)-1]
@@ -398,12 +430,58 @@ func TestVerifC13Sighup(t *testing.T) {
 					t.Fatal(err)
 				}
 			}
+			if sc.bad {
+				// the operator's file is cut short at the moment of this reload: the reload must fail, change nothing, and
+				// the registrar must go on serving SIGHUPs afterwards (the following scenarios depend on it)
+				keep := h.latest()
+				hup(1)
+				w, why := waitReload()
+				if w == nil {
+					_, _, st := c13SignalPathIdle()
+					if why == "timeout" {
+						rec.Inconclusive("no reload began within the bound after a SIGHUP", map[string]interface{}{"scenario": label, "signal_path": st})
+						continue
+					}
+					lost++
+					rec.Violation("sighup:no-reload-after-signal:"+why, "a SIGHUP sent to the running registrar did not start a reload (signal goroutine "+why+")", map[string]interface{}{"scenario": label, "signal_path": st})
+					continue
+				}
+				w.WriteString("\n[Networks]\n    [Networks.1153\n        Generation = 11")
+				w.Close()
+				if _, _, ok := quiesce(); !ok {
+					if _, found, st := c13SignalPathIdle(); !found {
+						lost++
+						rec.Violation("sighup:handler-goroutine-gone-after-failed-reload", "after a reload of an unparseable subnet file the goroutine that serves SIGHUP no longer exists: later reloads can never happen",
+							map[string]interface{}{"scenario": label, "signal_path": st})
+					} else {
+						rec.Inconclusive("the signal path could not be observed idle after a failed reload", label)
+					}
+					continue
+				}
+				rec.Count("evaluations", 1)
+				rec.Count("reloads_of_unparseable_files", 1)
+				rec.Distinct("nontrivial", label)
+				for i := 0; i < 3; i++ {
+					got, err := h.register()
+					if err != nil {
+						rec.Violation("request-failed-after-failed-reload", "a request failed after a reload of an unparseable subnet file", map[string]interface{}{"scenario": label, "err": err.Error()})
+					} else if got != keep.name && got != h.latest().name {
+						rec.Violation("set-changed-by-failed-reload", "a reload of an unparseable subnet file changed the set in use", map[string]interface{}{"scenario": label, "answered_from": got, "in_effect_before": keep.name})
+					}
+				}
+				continue
+			}
 			x := h.publish()
 			hup(sc.before)
-			w1 := h.waitServe(60 * time.Second)
+			w1, why := waitReload()
 			if w1 == nil {
 				_, _, st := c13SignalPathIdle()
-				rec.Inconclusive("no reload began within the bound after a SIGHUP sent to an idle registrar", map[string]interface{}{"scenario": label, "signal_path": st})
+				if why == "timeout" {
+					rec.Inconclusive("no reload began within the bound after a SIGHUP sent to an idle registrar", map[string]interface{}{"scenario": label, "signal_path": st})
+					continue
+				}
+				lost++
+				rec.Violation("sighup:no-reload-after-signal:"+why, "a SIGHUP sent to the running registrar did not start a reload (signal goroutine "+why+")", map[string]interface{}{"scenario": label, "signal_path": st})
 				continue
 			}
 			served := x
